@@ -59,6 +59,114 @@ fn tokens_outside_params(src: &str, name: &str) -> bool {
     crate::gen_text::tokenize(src).iter().filter(|t| t.as_str() == name).count() >= 2
 }
 
+/// direct uses of parameters under if forms (section "direct_uses")
+fn judge_direct(c: &mut Choices, st: &mut Stats) -> Verdict {
+    let d = *c.choose(MODERN);
+    let np = c.range(2, 4);
+    let initials = ["b", "d", "e", "g", "h", "k", "m", "n", "p", "s", "t", "u", "v", "w", "y", "z"];
+    let words = ["al", "eta", "ount", "otal", "ag", "ey", "um", "alue"];
+    let mut params: Vec<String> = vec![];
+    while params.len() < np {
+        let n = format!("{}{}", initials[c.pick(initials.len())], words[c.pick(words.len())]);
+        if !params.contains(&n) && !["not", "sum", "key"].contains(&n.as_str()) {
+            params.push(n);
+        }
+    }
+    // every if gets a condition of its own (a fresh constant in it): the check memoises evaluated
+    // conditions, and two ifs with the same condition lose each other's uses (listed finding
+    // unused-check-loses-uses-under-if); this section stays clear of that
+    fn expr(c: &mut Choices, vars: &[String], depth: usize, uniq: &mut u64) -> String {
+        let v = |c: &mut Choices| vars[c.pick(vars.len())].clone();
+        if depth == 0 {
+            return match c.pick(4) {
+                0 | 1 => v(c),
+                2 => format!("{}", c.range(0, 200)),
+                _ => format!("(q . {})", c.range(1, 90)),
+            };
+        }
+        match c.weighted(&[5, 4, 2, 2, 1]) {
+            0 => {
+                *uniq += 1;
+                let k = *uniq;
+                let cond = match c.pick(3) {
+                    0 => format!("(> {} {k})", v(c)),
+                    1 => format!("(> {} {k})", expr(c, vars, depth - 1, uniq)),
+                    _ => format!("(= {} {k})", expr(c, vars, depth - 1, uniq)),
+                };
+                format!("(if {cond} {} {})", expr(c, vars, depth - 1, uniq), expr(c, vars, depth - 1, uniq))
+            }
+            1 => format!("({} {} {})", ["+", "-", "*", "logxor"][c.pick(4)], expr(c, vars, depth - 1, uniq), expr(c, vars, depth - 1, uniq)),
+            2 => format!("(c {} {})", expr(c, vars, depth - 1, uniq), expr(c, vars, depth - 1, uniq)),
+            3 => format!("(list {} (q . {}))", expr(c, vars, depth - 1, uniq), c.range(1, 99)),
+            _ => expr(c, vars, 0, uniq),
+        }
+    }
+    // the last parameter is sometimes left out of the body entirely (a truly unused one)
+    let usable: Vec<String> = if c.chance(90) { params[..np - 1].to_vec() } else { params.clone() };
+    let mut uniq: u64 = 100;
+    let through_helper = c.chance(90);
+    let body = if through_helper {
+        let hp: Vec<String> = (0..usable.len()).map(|i| format!("H{i}")).collect();
+        let hb = expr(c, &hp, 2, &mut uniq);
+        format!("(defun pick ({}) {hb})\n  (pick {})", hp.join(" "), usable.join(" "))
+    } else {
+        expr(c, &usable, 3, &mut uniq)
+    };
+    let text = format!("(mod ({})\n  (include {})\n  {body}\n)\n", params.join(" "), d.sigil());
+    st.label(&format!("dialect:{}", d.name()));
+    let reported = match unused_report(&text) {
+        Ok(r) => r,
+        Err(e) => {
+            st.reject(&format!("[unused check] {}", e.chars().take(80).collect::<String>()));
+            return Verdict::Skip("the unused-argument check rejected the program");
+        }
+    };
+    let code = match sut::compile_modern(&text, d.sigil(), ModernOpts::cli_default(d.stepping()), "*verif*.clsp", &[]) {
+        Ok(c) => c.code,
+        Err(e) => {
+            st.reject(&format!("[{}] {}", d.name(), e.1.chars().take(80).collect::<String>()));
+            return Verdict::Skip("rejected by the compiler");
+        }
+    };
+    st.label("checked");
+    if reported.is_empty() {
+        st.label("nothing-reported");
+    }
+    let mut judged = 0;
+    for name in reported.iter() {
+        let Some(pi) = params.iter().position(|p| p == name) else { continue };
+        st.label("some-parameter-reported-unused");
+        for _ in 0..4 {
+            let base: Vec<i64> = (0..np).map(|_| [0, 1, 2, 7, 60, 300][c.pick(6)]).collect();
+            let mut other = base.clone();
+            other[pi] = if base[pi] == 0 { [1, 5, 90][c.pick(3)] } else if c.chance(128) { 0 } else { base[pi] + 1 + c.range(0, 40) as i64 };
+            let a = list(base.iter().map(|x| int(*x)).collect());
+            let b = list(other.iter().map(|x| int(*x)).collect());
+            let r1 = sut::run_consensus(&code, &a, RUN_COST);
+            let r2 = sut::run_consensus(&code, &b, RUN_COST);
+            judged += 1;
+            let same = match (&r1, &r2) {
+                (Ok(x), Ok(y)) => x == y,
+                (Err(_), Err(_)) => true,
+                _ => false,
+            };
+            if !same {
+                return Verdict::Violation(Box::new(Viol::new(
+                    &format!("direct-use:reported-unused-parameter-influences-result:{}", d.name()),
+                    format!("same behaviour; with {name} = {}: {:?}", base[pi], r1.as_ref().map(|v| v.show())),
+                    format!("with {name} = {}: {:?}", other[pi], r2.as_ref().map(|v| v.show())),
+                    json!({"section": "direct_uses", "source": text, "dialect": d.name(), "parameter": name, "reported_unused": reported, "args_a_hex": hex(&a.ser()), "args_b_hex": hex(&b.ser())}),
+                )));
+            }
+        }
+    }
+    if judged > 0 {
+        st.nontrivial(fnv(text.as_bytes()));
+        st.sample(|| json!({"section": "direct_uses", "source": text, "reported": reported}));
+    }
+    Verdict::Pass
+}
+
 pub fn unused_report(text: &str) -> Result<Vec<String>, String> {
     let opts: Rc<dyn CompilerOpts> = Rc::new(chialisp::compiler::compiler::DefaultCompilerOpts::new("*verif*.clsp"));
     match chialisp::classic::clvm_tools::debug::check_unused(opts, text) {
@@ -179,7 +287,7 @@ impl Prop for C17Prop {
         "C17"
     }
     fn rule(&self) -> &'static str {
-        "C01 generator with 0..8 lower-case mod parameters in flat, nested, dotted and @-captured parameter lists; each parameter ends up used directly, only through helpers / inline functions / lets / lambdas / macros, only under a condition, only in a raising branch, in a &rest tail, or not at all. The program text goes through exactly what --check-unused-args runs (check_unused with default options). For every parameter it reports, up to 9 pairs of argument trees that differ only at that parameter (nil, ints, trees, conses so that destructuring differs) are run on the compiled program (the sigil's default options). Oracle: both members of a pair return the same value or both fail. Non-trivial: >= 1 parameter reported and >= 1 pair executed. Distinct by hash of the source."
+        "C01 generator with 0..8 lower-case mod parameters in flat, nested, dotted and @-captured parameter lists; each parameter ends up used directly, only through helpers / inline functions / lets / lambdas / macros, only under a condition, only in a raising branch, in a &rest tail, or not at all. The program text goes through exactly what --check-unused-args runs (check_unused with default options). For every parameter it reports, up to 9 pairs of argument trees that differ only at that parameter (nil, ints, trees, conses so that destructuring differs) are run on the compiled program (the sigil's default options). Oracle: both members of a pair return the same value or both fail. Non-trivial: >= 1 parameter reported and >= 1 pair executed. Second section (direct_uses): small template programs with 2..4 parameters whose names start with letters from all over the alphabet, used directly in conditions and branches of (possibly nested) if forms next to quoted constants and lists, optionally through one helper called exactly once, sometimes with a parameter left out entirely; no binding forms and no repeated calls, so none of the listed findings applies and nothing is excused there. Distinct by hash of the source."
     }
     fn sections(&self, tier: Tier) -> Vec<Section> {
         vec![Section {
@@ -190,12 +298,25 @@ impl Prop for C17Prop {
             },
             exhaustive: false,
             what: "generated programs with lower-case parameters x unused-argument report x argument pairs",
+        }, Section {
+            name: "direct_uses",
+            kind: SectionKind::Random {
+                cases: tier.pick(1_200, 30_000),
+                maxlen: 80,
+            },
+            exhaustive: false,
+            what: "small programs whose parameters (initials from all over the alphabet) are used directly in conditions and branches of if forms, next to quoted constants, optionally through one helper called once: no binding forms, no repeated calls -- none of the listed findings applies here, so nothing is excused in this section",
         }]
     }
     fn run(&self, _sec: &str, input: &Input, tier: Tier, st: &mut Stats) -> Verdict {
         let Input::Bytes(bytes) = input else {
             return Verdict::Skip("index input not used");
         };
+        if _sec == "direct_uses" {
+            let mut c = Choices::new(bytes);
+            st.label("random_case");
+            return judge_direct(&mut c, st);
+        }
         let case = decode_case(bytes, tier, Some(cfg(tier)));
         st.label("random_case");
         if case.collision {
@@ -251,6 +372,11 @@ impl Prop for C17Prop {
         })
     }
     fn known(&self, v: &Viol) -> Option<&'static str> {
+        // nothing is excused in the direct-uses section: its programs have no binding forms and
+        // call no function twice
+        if v.case.get("section").and_then(|s| s.as_str()) == Some("direct_uses") {
+            return None;
+        }
         // excused only when one run returns and the other *fails*: the parameter feeds a
         // sub-expression whose value is discarded (never two different returned values)
         if v.sig.contains(":value-vs-failure:") {
